@@ -55,7 +55,11 @@ pub fn oid_to_string(body: &[u8]) -> String {
 			acc = 0;
 		}
 	}
-	parts.iter().map(|p| p.to_string()).collect::<Vec<_>>().join(".")
+	parts
+		.iter()
+		.map(|p| p.to_string())
+		.collect::<Vec<_>>()
+		.join(".")
 }
 
 /// signatureAlgorithm OID of a DER CertificationRequest or Certificate (second member of the
